@@ -156,23 +156,49 @@ class MessageAny(TlbScheme):
         return isinstance(self.info, ExternalOutMsgInfo)
 
     def serialize(self) -> Cell:
-        builder = Builder().store_cell(self.info.serialize())
-        if self.init:
-            builder.store_bit(1)  # maybe true
-            if len(self.init.serialize().bits) <= (builder.available_bits - 2) and len(self.init.serialize().refs) <= builder.available_refs:
-                builder.store_bit(0)  # Either left
-                builder.store_cell(self.init.serialize())
+        info = self.info.serialize()
+        init = self.init.serialize() if self.init else None
+        body = self.body
+        # Choose where the state-init and the body go so that BOTH the bit and the reference budgets of the cell hold.
+        # Inline is preferred; deciding the init greedily could leave no reference for a body that has to go by reference.
+        init_ref, body_ref = init is not None, True
+        for try_init_ref, try_body_ref in ((False, False), (False, True), (True, False), (True, True)):
+            if init is None and try_init_ref:
+                continue
+            bits = len(info.bits) + 2
+            refs = len(info.refs)
+            if init is not None:
+                bits += 1
+                if try_init_ref:
+                    refs += 1
+                else:
+                    bits += len(init.bits)
+                    refs += len(init.refs)
+            if try_body_ref:
+                refs += 1
             else:
+                bits += len(body.bits)
+                refs += len(body.refs)
+            if bits <= 1023 and refs <= 4:
+                init_ref, body_ref = try_init_ref, try_body_ref
+                break
+        builder = Builder().store_cell(info)
+        if init is not None:
+            builder.store_bit(1)  # maybe true
+            if init_ref:
                 builder.store_bit(1)  # Either right
-                builder.store_ref(self.init.serialize())
+                builder.store_ref(init)
+            else:
+                builder.store_bit(0)  # Either left
+                builder.store_cell(init)
         else:
             builder.store_bit(0)  # maybe false
-        if len(self.body.bits) <= (builder.available_bits - 1) and len(self.body.refs) <= builder.available_refs:
-            builder.store_bit(0)  # Either left
-            builder.store_cell(self.body)
-        else:
+        if body_ref:
             builder.store_bit(1)  # Either right
-            builder.store_ref(self.body)
+            builder.store_ref(body)
+        else:
+            builder.store_bit(0)  # Either left
+            builder.store_cell(body)
         return builder.end_cell()
 
     @classmethod
